@@ -311,6 +311,19 @@ impl RandomSched {
             }
         }
 
+        // C14: freeze hash 0 once it has something in flight.
+        if c.freeze && !self.freeze_decided && sim.w.init_acked {
+            let h0 = super::content::pool().hashes[0];
+            let busy = node.outstanding_rpcs().any(|(_, r)| r.hash == Some(h0))
+                || node.cmd_running(&h0)
+                || node.has_pending(&h0)
+                || super::oracle::Oracles::held_for(&sim.w, &h0).next().is_some();
+            if busy && self.rng.chance(1, 4) {
+                self.freeze_decided = true;
+                return Some(Op::Freeze { hash: 0 });
+            }
+        }
+
         let mut cands: Vec<(Op, u32)> = Vec::new();
         // Offer
         if self.sets_offered < c.max_sets {
